@@ -724,6 +724,14 @@ pub fn gen_game_opts(t: &mut Tape, mate_bias: usize, max_plies: usize, allow_sto
         (forced_theme(t)?, "forced_move")
     } else if special == 3 {
         (fortress_theme(t)?, "fortress")
+    } else if special == 4 && t.pick(2) == 0 {
+        // mined positions (roots_data::SCORE_SWINGS) in which the root score of consecutive iterations
+        // differs by more than the 16-bit range: the side to move is clearly lost at iteration n - 1 and
+        // has found a mate at iteration n >= 5, or the reverse - as they are, or colour-mirrored
+        let f = crate::roots_data::SCORE_SWINGS[t.pick(crate::roots_data::SCORE_SWINGS.len())];
+        let p = Pos::from_fen(f).ok()?;
+        p.validate().ok()?;
+        (if t.pick(2) == 0 { p } else { p.mirror() }, "score_swing")
     } else if t.pick(8) < mate_bias {
         (mate_theme(t)?, "mate_theme")
     } else {
@@ -742,7 +750,7 @@ pub fn gen_game_opts(t: &mut Tape, mate_bias: usize, max_plies: usize, allow_sto
     };
     let mut cur = root.clone();
     let mut moves = vec![];
-    let plies = t.pick(max_plies + 1);
+    let plies = if src == "score_swing" { t.pick(5) / 4 } else { t.pick(max_plies + 1) };
     for _ in 0..plies {
         let legal = cur.legal_moves();
         if legal.is_empty() {
